@@ -298,6 +298,8 @@ class Check:
         }
         # bin/coverage runs the workloads against a gcov build to see what they reach: that is not evidence
         evdir = os.path.join(VERIF, "evidence") if os.environ.get("VERIF_COVERAGE") != "1" else os.path.join(self.rundir, "coverage-evidence")
+        if os.environ.get("VERIF_EVIDENCE_DIR"):      # bin/seed_sweep: runs against a patched scratch worktree are not evidence either
+            evdir = os.environ["VERIF_EVIDENCE_DIR"]
         os.makedirs(evdir, exist_ok=True)
         with open(os.path.join(evdir, self.pid + ".json"), "w") as f:
             json.dump(ev, f, indent=1, sort_keys=True, default=str)
